@@ -1062,3 +1062,48 @@ def run_I7(chk, rule="I7"):
                         f"permutes struct, slices, hfs and data together and resets trans; the field left behind stays in the old native order -- "
                         f"is_consistent() fails and leg-based operations address the wrong leg (only for a lazily transposed tensor whose legs differ)")
     return n
+
+
+# public Tensor methods that read per-leg struct fields of their receiver without looking at `trans`, confirmed by reading: (name) -> reason
+I9_UNIFORM = {
+    "conj": "negates every signature / charge uniformly and keeps `trans`: the operation commutes with any permutation of the legs",
+    "flip_signature": "same: all legs alike, `trans` kept",
+    "is_consistent": "checks the internal consistency of the native storage; leg order plays no role",
+    "ndim_n": "only the number of native legs",
+    "remove_zero_blocks": "filters whole blocks and keeps `trans`; no leg is addressed",
+    "truncation_mask": "operates on the diagonal spectrum S (two identical legs; diagonal tensors carry no pending permutation that matters)",
+    "apply_mask": "the receiver is the diagonal mask; the per-leg lookups on the *operand* go through its trans (rule L1)",
+    "__str__": "debug string of the native storage",
+    "print_properties": "debug print of the native storage",
+    "print_blocks_shape": "debug print of the native storage",
+}
+
+
+def run_I9(chk, rule="I9"):
+    """I9 (who must read): a public method of Tensor that answers a question about *legs in the order the user sees them* from the
+    per-leg fields of the native storage (`struct.t`, `struct.D`, `struct.s` of its receiver) has to account for the pending
+    permutation -- read `trans`, or go through a function that does (consume_transpose, get_legs, ...).  The methods that treat all
+    legs alike are listed by name with the reason; every other such method that never looks at `trans` gives, for a lazily transposed
+    tensor, the answer for another leg order than the one `__getitem__`, get_legs and to_numpy use."""
+    prog = chk.prog
+    chk.rule(rule, "public Tensor methods that read per-leg native fields account for the pending permutation (or treat all legs alike: named)", floor=20)
+    readers = trans_readers(prog)
+    T = prog.cls("yastn.tensor", "Tensor")
+    for name, f in sorted(T.methods.items()):
+        if (name.startswith("_") and not (name.startswith("__") and name.endswith("__"))) or not f.params:
+            continue
+        me = f.params[0]
+        per_leg = [x for x in ast.walk(f.node) if isinstance(x, ast.Attribute) and x.attr in ("t", "D", "s") and A.text(x.value) == f"{me}.struct"]
+        if not per_leg:
+            continue
+        reads = any(isinstance(n, ast.Attribute) and n.attr in ("trans", "_trans") and A.text(n.value) == me for n in ast.walk(f.node)) or \
+            any(isinstance(n, ast.Call) and (((A.call_name(n) or "").split(".")[-1] in readers) or A.callee_attr(n) in readers) for n in ast.walk(f.node))
+        if reads:
+            chk.ok(rule, f, f"Tensor.{name}: per-leg fields {sorted({x.attr for x in per_leg})} read together with trans", sample=False)
+        elif name in I9_UNIFORM:
+            chk.ok(rule, f, f"Tensor.{name}: all legs alike ({I9_UNIFORM[name][:60]})", sample=False)
+        else:
+            chk.bad(rule, (f, per_leg[0]), f"Tensor.{name}: `{A.text(per_leg[0])}`", f"Tensor.{name}(): reads `{A.text(per_leg[0])}` (native leg order) and never looks at "
+                    f"`{me}.trans`: for a lazily transposed tensor the answer refers to the legs in storage order, while __getitem__, get_legs, "
+                    f"get_shape and to_numpy use the order the user sees -- e.g. `t in a` is False for a block that `a[t]` returns, "
+                    f"`for t in a.get_blocks_charge(): a[t]` raises")
